@@ -117,6 +117,8 @@ check("C05", "scans: exactly the live keys, once, in order, within bounds", [
     ob("VerifC11_SeekAcrossBlocks", "pkg/sstable", "the SSTable iterator under a range scan's lower bound: Seek(t) on a table of two data blocks lands on the smallest key >= t (also when t falls between the blocks), Next* yields the rest once, in order", "2 blocks", q={"budget_s": 300}),
     ob("VerifC05_ScanDuringFlush", "pkg/engine/storage", "a full or range scan (created and run to its end) racing the flush of sealed memtables (the body of the background flush goroutine) on an engine with a 1-byte memtable, after two puts and optionally an overwrite/delete (thorough: part of the data already in SSTables; a concurrent writer of another key): wherever the tables are when the scan is created (sealed in memory, being written out, registered as SSTable) it yields exactly the live keys that existed before it started, once, ascending, latest values",
        "2 threads, 3 write shapes x {full, range}, concrete keys, symbolic values, preemption bound 1", "3 threads (writer of another key), data partly flushed before, preemption bound 1", q={"preempt": 1, "budget_s": 300}, t={"preempt": 1, "budget_s": 1200}, no_validate=True),
+    ob("VerifC11_ManyBlocks", "pkg/sstable", "a table of 18 (thorough 34) data blocks, one block-sized value each, so that the index block spans more than one restart interval: Seek(t) for a symbolic target on a fresh iterator or on one that was used before (a Seek past the end, or onto the last key) lands on the first key >= t, Next* yields the rest once, in order, with values and sequence numbers; Get(q) for a symbolic key finds exactly the written keys",
+       "18 blocks of 16 KiB, 3 modes (seek+iterate, re-seek on a used iterator, point lookup), one-byte targets", "34 blocks", q={"budget_s": 500}, t={"budget_s": 1500}),
     ob("VerifC05_EngineScan", "pkg/engine/storage", "storage.Manager full and range scans after a symbolic program", "<=3 steps, 3 keys, MemTableSize in {1, default}", "<=4 steps", t={}),
 ], [SIMFS, CLOCK, HASH, BLOOM, RAND, LOG, TIERA], [])
 
@@ -189,6 +191,8 @@ check("C11", "an SSTable reads back exactly what was written", [
     ob("VerifC11_SeekRestartInterval", "pkg/sstable", "17-18 keys (two restart intervals): Seek(t) lands on the first key >= t, iteration yields the rest once", "17..18 one-byte keys"),
     ob("VerifC11_GetAcrossBlocks", "pkg/sstable", "two data blocks (64 KiB value closes the first): point lookups of every written key and of an absent key", "2 blocks, <=2 small entries per block", q={"budget_s": 300}),
     ob("VerifC11_SeekAcrossBlocks", "pkg/sstable", "two data blocks: Seek(t) + Next*", "2 blocks", q={"budget_s": 300}),
+    ob("VerifC11_ManyBlocks", "pkg/sstable", "a table of 18 (thorough 34) data blocks, one block-sized value each, so that the index block spans more than one restart interval: Seek(t) for a symbolic target on a fresh iterator or on one that was used before (a Seek past the end, or onto the last key) lands on the first key >= t, Next* yields the rest once, in order, with values and sequence numbers; Get(q) for a symbolic key finds exactly the written keys",
+       "18 blocks of 16 KiB, 3 modes (seek+iterate, re-seek on a used iterator, point lookup), one-byte targets", "34 blocks", q={"budget_s": 500}, t={"budget_s": 1500}),
     ob("VerifC11_FlipOneByte", "pkg/sstable", "one byte at any position of a finished table (data block, restart array, trailer, bloom section, index block, footer) replaced by a symbolic different value: open/iterate/seek/get fail or yield only written entries, ascending; no panic",
        "tables of 1-2 entries; every file position except the interior of the bloom bit array (5 representatives); every replacement value", "tables of 1-3 entries", q={"budget_s": 400}, t={"budget_s": 900}),
     ob("VerifC11_BloomNoFalseNegative", "pkg/bloom_filter", "real Add/Contains/SaveToFile/LoadBloomFilter on a 20-bit filter: no false negative", "<=2 keys, 20 bits, 7 hash functions"),
